@@ -34,6 +34,20 @@ claim("C10",
       "constant-evaluated table lint over the clang AST (custom LibTooling extractor + Python rule)",
       "DESIGN.md section 3, C10")
 
+claim("C04",
+      "Sibling agreement by static tree comparison: for each of the 263 builtins the constant folder, the interpreter, the C "
+      "expression form, the C statement-macro form (both obtained from foam_c.h through a clang-parsed probe unit, runtime "
+      "wrappers inlined) and a reference table are normalised to operator trees and must be equal; plus table order/"
+      "exhaustiveness (B1), operand/result typing (B2) and use of every operand (B3). Strong for the Bool/Char/SInt/Ptr/"
+      "conversion/constant builtins (reference = mathematical definition); BInt builtins are compared at the level of the "
+      "bigint.c primitive reached; float builtins operator-for-operator, library calls by name. Decides the shape of the "
+      "definitions, not bit-level results of libm/bigint.c.",
+      "Trusted: clang 14 front end; the rewrite list in rules/trees.py and c04_builtins.py (each an identity of C on the "
+      "operand class); frozen tables under rules/frozen/ (vocabulary, no-value builtins, fingerprint of the four genc.c "
+      "functions that interpret ccBValInfoTable.special). Assumes Bool values are 0/1 and ISO C ctype/atof are one primitive.",
+      "sibling cross-check of switch cases and tables over the clang AST, normalised expression-tree equality",
+      "DESIGN.md section 3, C04 and appendix A")
+
 PENDING_REASON = "check designed in DESIGN.md but not yet built in this tree; not claimed until it runs"
 
 
